@@ -39,16 +39,16 @@ struct Plan {
             nname = "numerators: L16 lattice, multiples of d nearest both range ends and their neighbours (all 2^16 in thorough)";
             small = false;
         } else {
-            const std::uint64_t lowlim = level >= 2 ? (1u << 16) : (level == 1 ? (1u << 11) : (1u << 8));
+            const std::uint64_t lowlim = level >= 2 ? (1u << 18) : (level == 1 ? (1u << 11) : (1u << 8));
             for (std::uint64_t i = 1; i < lowlim; ++i) { d.push_back(i); if (std::is_signed<T>::value) d.push_back((0 - i) & low_mask(B)); }
             std::vector<std::uint64_t> l = alphabet_L(B, thorough);
             for (std::size_t i = 0; i < l.size(); i += (level == 0 ? 3 : 1)) d.push_back(l[i]);
             { std::vector<std::uint64_t> k = alphabet_K(B); d.insert(d.end(), k.begin(), k.end()); }
             // odd multipliers spread over the range (deterministic; plays the role of 'primes spread over the range')
-            const unsigned spread = level >= 2 ? 4096 : (level == 1 ? 256 : 64);
+            const unsigned spread = level >= 2 ? 16384 : (level == 1 ? 256 : 64);
             for (unsigned k = 1; k <= spread; ++k) d.push_back((0x9E3779B97F4A7C15ull * k | 1) & low_mask(B));
             for (unsigned k = 1; k <= spread; ++k) d.push_back(((low_mask(B) / spread) * k + 1) & low_mask(B));
-            dname = level >= 2 ? "divisors: +-1..2^16, L lattice, 2^k, 2^k+-1, extremes, 8192 spread values"
+            dname = level >= 2 ? "divisors: +-1..2^18, L lattice, 2^k, 2^k+-1, extremes, 32768 spread values"
                   : level == 1 ? "divisors: +-1..2^11, L lattice, 2^k, 2^k+-1, extremes, 512 spread values" : "divisors: +-1..2^8, K, every third L member, 128 spread values";
             nname = "numerators: 0, +-1, MIN, MAX, L lattice, multiples of d nearest both range ends and their neighbours, small multiples";
         }
@@ -157,6 +157,8 @@ struct ScalarDenom {
         static const unsigned BLK = 256;
         T nb[BLK], q1[BLK], r1[BLK], q2[BLK], r2[BLK], q3[BLK], r3[BLK];
         static const char* ops[6] = {"div_quot", "div_rem", "quot", "rem", "quot_assign", "rem_assign"};
+        Stat* S6[6];
+        for (unsigned k = 0; k < 6; ++k) S6[k] = &book.st(ops[k]);
         for (std::size_t di = 0; di < plan.divs.size(); ++di) {
             const T d = plan.divs[di];
             alignas(D) unsigned char raw[sizeof(D)];
@@ -179,16 +181,17 @@ struct ScalarDenom {
                 Use u = {den, nb, cnt, q1, r1, q2, r2, q3, r3};
                 sig = guarded(u);
                 if (sig) { book.fail("div_quot", pair_key(nb[0], d, 92), "signal " + u64s(std::uint64_t(sig)) + " dividing by Denominator(" + hexval(d) + ") near " + pair_str(nb[0], d)); continue; }
+                std::uint64_t nts = 0;
                 for (unsigned i = 0; i < cnt; ++i) {
                     const T eq = m_quot(nb[i], d), er = m_rem(nb[i], d);
                     const T got[6] = {q1[i], r1[i], q2[i], r2[i], q3[i], r3[i]};
-                    const bool nt = eq >= T(2) || (std::is_signed<T>::value && i128(eq) <= -2);
+                    nts += (eq >= T(2) || (std::is_signed<T>::value && i128(eq) <= -2)) ? 1 : 0;
                     for (unsigned k = 0; k < 6; ++k) {
-                        book.ok(ops[k], nt);
                         const T e = (k % 2 == 0) ? eq : er;
                         if (got[k] != e) book.fail(ops[k], pair_key(nb[i], d, k), pair_str(nb[i], d) + " got " + hexval(got[k]) + " expected " + hexval(e));
                     }
                 }
+                for (unsigned k = 0; k < 6; ++k) { Stat& s6 = *S6[k]; s6.evals += cnt; s6.distinct += cnt; s6.nontrivial += nts; }  // counted per block: a map lookup per pair dominated the run
             }
         }
         book.samples();
